@@ -255,26 +255,28 @@ def liqOriginOut (st : LiqState) (e : Nat) : Option LiqOut :=
   | none => none
   | some (Tz, Tq) => some ⟨[], Tz, Tq, 0, 0, st.entries⟩
 
+/-- the additional reward (`LiquidityInfo.ZnnReward/QsrReward`) is added to the epoch's amounts, and burned from the
+    contract's balance, only when the balance covers both coins -/
+def liqBurn (st : LiqState) : Nat × Nat :=
+  if st.addZnn ≤ st.balZnn ∧ st.addQsr ≤ st.balQsr then (st.addZnn, st.addQsr) else (0, 0)
+
+/-- the part of `computeLiquidityStakeRewardsForEpoch` after the totals `(Tz, Tq)` are known: per-token amounts, credits
+    pro rata per token, `totalFunds > totalAmount → ErrInvalidRewards` (`none`), the remainder is minted to the contract -/
+def liqSplit (c : Cfg) (st : LiqState) (e : Nat) (Tz Tq : Int) (bz bq : Nat) : Option LiqOut :=
+  let rw := tokenRewards Tz Tq st.tuples
+  let credits := st.entries.filterMap (liqCredit c e rw st.entries)
+  if isumZ credits > Tz ∨ isumQ credits > Tq then none
+  else
+    some ⟨credits, Tz - isumZ credits, Tq - isumQ credits, bz, bq,
+      st.entries.filter (fun x => !((liqCredit c e rw st.entries x).isSome && expired x.revoke (epochEnd c e)))⟩
+
 /-- `computeLiquidityStakeRewardsForEpoch`; `none` = panic of the constants or ErrInvalidRewards -/
 def liqStakeOut (c : Cfg) (st : LiqState) (e : Nat) : Option LiqOut :=
   match liquidityRewardForEpoch e with
   | none => none
   | some (Tz0, Tq0) =>
     if st.halted then some ⟨[], Tz0, Tq0, 0, 0, st.entries⟩
-    else
-      let enough := decide (st.addZnn ≤ st.balZnn ∧ st.addQsr ≤ st.balQsr)
-      let bz : Nat := if enough then st.addZnn else 0
-      let bq : Nat := if enough then st.addQsr else 0
-      let Tz := Tz0 + (bz : Int)
-      let Tq := Tq0 + (bq : Int)
-      let rw := tokenRewards Tz Tq st.tuples
-      let credits := st.entries.filterMap (liqCredit c e rw st.entries)
-      let fz := isumZ credits
-      let fq := isumQ credits
-      if fz > Tz ∨ fq > Tq then none
-      else
-        some ⟨credits, Tz - fz, Tq - fq, bz, bq,
-          st.entries.filter (fun x => !((liqCredit c e rw st.entries x).isSome && expired x.revoke (epochEnd c e)))⟩
+    else liqSplit c st e (Tz0 + ((liqBurn st).1 : Int)) (Tq0 + ((liqBurn st).2 : Int)) (liqBurn st).1 (liqBurn st).2
 
 /-! ### one contract, one epoch -/
 
